@@ -82,7 +82,7 @@ S0(d, z, k) == (ModInv(k, Q) * (z + ROf(k) * d)) % Q
 Signable(d, z, k) == ROf(k) # 0 /\ S0(d, z, k) # 0
 LowSOf(s0) == IF s0 > (Q - 1) \div 2 THEN Q - s0 ELSE s0
 MkEvent(mode, d, z, ht, r, s, der, raw) ==
-    [mode |-> mode, key |-> d, z |-> z, ht |-> ht, r |-> B(r), s |-> B(s), der |-> der, raw |-> raw,
+    [mode |-> mode, key |-> d, z |-> z, rep |-> "bytes", ht |-> ht, r |-> B(r), s |-> B(s), der |-> der, raw |-> raw,
      valid |-> ToyValid(d, z, r, s)]
 PlainEvent(mode, d, z, ht, r, s) == MkEvent(mode, d, z, ht, r, s, SigDer(B(r), B(s), ht), Pad32(B(r)) \o Pad32(B(s)))
 SpecEvent(mode, d, z, k, ht) == PlainEvent(mode, d, z, ht, ROf(k), LowSOf(S0(d, z, k)))
@@ -160,7 +160,7 @@ SpecSign ==
 
 \* faulty signers (each one is a realistic defect); the judge must blame exactly the histories they spoil
 BadKinds == {"nonce-from-digest", "nonce-from-key", "nonce-constant", "random-reused", "high-s", "der-padded", "der-longlen",
-             "ht-dropped", "wrong-s", "raw-swapped", "s-not-reduced"}
+             "ht-dropped", "wrong-s", "raw-swapped", "s-not-reduced", "nonce-from-hex-case"}
 BadFrom(kind, good, i, j, ht) ==
     LET d == good.key z == good.z r == V(good.r) s == V(good.s)
     IN CASE kind = "nonce-from-digest" -> SpecEvent("det", d, z, GoodSeq[j], ht)
@@ -173,6 +173,7 @@ BadFrom(kind, good, i, j, ht) ==
          [] kind = "ht-dropped" -> [good EXCEPT !.der = DerSeq(good.r, good.s)]
          [] kind = "wrong-s" -> PlainEvent("det", d, z, ht, r, (s % (Q - 1)) + 1)
          [] kind = "raw-swapped" -> [good EXCEPT !.raw = Pad32(good.s) \o Pad32(good.r)]
+         [] kind = "nonce-from-hex-case" -> [SpecEvent("det", d, z, GoodSeq[NPairs + 1], ht) EXCEPT !.rep = "hex-upper"]
          [] kind = "s-not-reduced" -> PlainEvent("det", d, z, ht, r, s + Q)
 BadSign ==
     /\ mode = "sign" /\ Len(hist) < MaxEvents
